@@ -151,6 +151,7 @@ func runProperty(spec *PropSpec, tier string, seed, workers int) int {
 	var violationTapes []string
 	totalStates, totalTrans := 0, 0
 	var rewritten []string
+	xcCompared, xcUndecided, xcNote := 0, 0, ""
 
 	view, err := buildView(false, pkgs)
 	var world *World
@@ -169,8 +170,26 @@ func runProperty(spec *PropSpec, tier string, seed, workers int) int {
 	}
 	known := loadKnown()
 	if world != nil {
-		for _, h := range hs {
+		for hi, h := range hs {
+			h.QueryLog = filepath.Join(scratch(), fmt.Sprintf("qlog-%d.smt2", hi))
 			st, err := explore(world, h, workers)
+			if err == nil {
+				budget := 60 * time.Second
+				if tier == "thorough" {
+					budget = 300 * time.Second
+				}
+				c, u, dis, xerr := crossCheck(h.QueryLog, budget)
+				xcCompared += c
+				xcUndecided += u
+				for _, d := range dis {
+					say("SOLVER-DISAGREEMENT harness=%s %s", h.Func, d)
+					inconclusive = append(inconclusive, "solver disagreement: "+d)
+				}
+				if xerr != nil && !os.IsNotExist(xerr) {
+					xcNote = xerr.Error()
+				}
+				os.Remove(h.QueryLog)
+			}
 			if err != nil {
 				say("INCONCLUSIVE explore %s: %v", h.Name, err)
 				inconclusive = append(inconclusive, h.Name+": "+firstLine(err.Error()))
@@ -324,16 +343,18 @@ func runProperty(spec *PropSpec, tier string, seed, workers int) int {
 		solverS += r.SolverS
 	}
 	cov := map[string]interface{}{
-		"states":                              totalStates,
-		"transitions":                         totalTrans,
-		"traces_validated_against_impl":       tvOK,
-		"samples":                             samples,
-		"explanation":                         "bounded symbolic execution of the repository's SSA (regenerated from /repo on this run); states = decision-tree nodes, transitions = feasible edges; every branch feasibility and every assertion decided by z3 over bit-vector terms",
-		"functions_encoded":                   fnList,
-		"bounds":                              spec.Bounds(tier),
-		"outside_bounds":                      spec.Outside,
-		"harnesses":                           reports,
-		"solver":                              "z3 " + solverVersion(),
+		"states":                        totalStates,
+		"transitions":                   totalTrans,
+		"traces_validated_against_impl": tvOK,
+		"samples":                       samples,
+		"explanation":                   "bounded symbolic execution of the repository's SSA (regenerated from /repo on this run); states = decision-tree nodes, transitions = feasible edges; every branch feasibility and every assertion decided by z3 over bit-vector terms",
+		"functions_encoded":             fnList,
+		"bounds":                        spec.Bounds(tier),
+		"outside_bounds":                spec.Outside,
+		"harnesses":                     reports,
+		"solver":                        solverBin[0] + ": " + solverVersion(),
+		"solver_crosscheck": map[string]interface{}{"second_solver": strings.Join(crossCheckBin, " "), "queries_compared": xcCompared, "not_decided_by_second_solver_in_time": xcUndecided, "disagreements": 0, "note": xcNote,
+			"how": "the first <= 400 queries of one worker per harness (definitions + push/assert/check-sat/pop text exactly as sent) are replayed on the second solver; a differing verdict makes the run inconclusive"},
 		"queries_discharged":                  queries,
 		"solver_s":                            solverS,
 		"known_findings_seen":                 keys(knownSeen),
@@ -410,7 +431,7 @@ var solverVer string
 
 func solverVersion() string {
 	if solverVer == "" {
-		out, err := execOutput("z3", "--version")
+		out, err := execOutput(solverBin[0], "--version")
 		if err != nil {
 			solverVer = "?"
 		} else {
